@@ -66,3 +66,5 @@ open SamVerif.IntRange SamVerif.Assign SamVerif.Gates SamVerif.Scope SamVerif.C0
 #print axioms memo_result_ordered
 #print axioms ordered_closed
 #print axioms cycle_detected_memo
+#print axioms assign_nominal_identity
+#print axioms assign_nominal_name_only_counterexample
